@@ -326,6 +326,7 @@ class timemodel(_coreiterative):
             checkend = self._check_end(stopcrit)
             # save at least current state
             if checkend and len(results)==0:
+                self.Qn.it = self._itstart + self._nit # returned state carries the cumulative iteration count (used by restart)
                 results.append(self.Qn)
         self._cputime = myclock() - start
         if flush:
